@@ -15,11 +15,11 @@
     (a held block) succeeds (from C02).
 
   * `conc_bitfield_no_panic` / `conc_free_of_held_succeeds` — **every interleaving of any number
-    of threads** at the bitfield level (`Bitfield::toggle`, all orders): no access panics, the
-    roll-back `Failed undo toggle` cannot fail, frees of held blocks succeed.
+    of threads** at the bitfield level (`toggle`, `set_first_zeros`, all orders): no access panics,
+    the roll-backs `Failed undo toggle` / `Failed undo search` cannot fail, frees of held blocks succeed.
 
-  PARTIAL: for the whole allocator (`set_first_zeros`, counters/markers — where K1 lives —, tree
-  counters, reservations) panic-freedom under every interleaving is not a theorem. Explored by the trace co-simulation (preemption-bounded DFS, random schedules, freeze
+  PARTIAL: for the whole allocator (counters/markers — where K1 lives —, tree counters,
+  reservations) panic-freedom under every interleaving is not a theorem. Explored by the trace co-simulation (preemption-bounded DFS, random schedules, freeze
   experiments), with panic capture and the "free of a held block succeeded" oracle; the event
   trace of every explored schedule is replayed on the Lean interleaving semantics.
 -/
